@@ -7,7 +7,7 @@
    the cancellation error, nothing of an object runs after its Close) is the extracted ledger oracle Spec/OpLedger.v,
    run on the model's trace and on the implementation's trace of every script; the theorems are the per-step facts that
    make it hold.  PARTIAL: the induction of the ledger over whole histories is not proved in Coq. *)
-From Sonic Require Import Base.Prelude Gen.Consts Model.Loop Proofs.LoopProofs.
+From Sonic Require Import Base.Prelude Gen.Consts Model.Loop Proofs.LoopProofs Proofs.LoopClosed.
 Local Open Scope Z_scope.
 
 (* Never twice: the poller removes the interest before it dispatches, and a batch entry whose object has no interest
@@ -29,6 +29,20 @@ Theorem C01_close_leaves_no_interest : forall s i o,
              o_closed o' = true /\ o_evR o' = false /\ o_evW o' = false /\ snd (do_action s (AClose i)) = [].
 Proof. exact close_clears_interest. Qed.
 Print Assumptions C01_close_leaves_no_interest.
+
+(* ... and this holds in every reachable state: for every script, every handler program and every batch, a closed object has
+   no interest registered, so no batch entry - stale or not - invokes a callback of it or changes anything. *)
+Theorem C01_no_poller_callback_after_close_all_histories : forall ops s i o mask,
+  cl_inv s -> lookup i (l_objs (lrun s ops)) = Some o -> o_closed o = true ->
+  fst (poll_entry (lrun s ops) (0, i, mask)) = lrun s ops /\
+  (forall it, In it (snd (poll_entry (lrun s ops) (0, i, mask))) -> it = IPollWrite i) /\
+  write_event (lrun s ops) i xNil = (lrun s ops, []).
+Proof. exact no_poller_callback_after_close. Qed.
+Print Assumptions C01_no_poller_callback_after_close_all_histories.
+
+Theorem C01_initial_state_has_no_closed_interest : cl_inv loop_init.
+Proof. exact cl_init. Qed.
+Print Assumptions C01_initial_state_has_no_closed_interest.
 
 (* The system-call loop of asyncReadNow/asyncWriteNow ends in exactly one of: one completion (one callback item), the
    interest registered again (deferred to the poller), or - excluded by the correspondence run - fuel exhaustion. *)
